@@ -448,8 +448,8 @@ impl SarifFormatter {
             None
         };
 
-        // Convert path to URI format (already uses forward slashes from display_path)
-        let uri = self.display_path(result.path());
+        // Convert path to URI format (display_path already uses forward slashes)
+        let uri = encode_uri_path(&self.display_path(result.path()));
 
         let suggestions = if self.show_suggestions {
             result.suggestions().cloned()
@@ -490,6 +490,25 @@ impl SarifFormatter {
             },
         })
     }
+}
+
+/// Percent-encode a display path so that it is a valid RFC 3986 URI reference.
+///
+/// Unreserved characters and `/` are kept; every other byte of the UTF-8 path becomes `%XX`
+/// (so `%` itself becomes `%25` and a consumer decodes the URI back to exactly this path).
+fn encode_uri_path(path: &str) -> String {
+    const HEX: &[u8; 16] = b"0123456789ABCDEF";
+    let mut uri = String::with_capacity(path.len());
+    for &byte in path.as_bytes() {
+        if byte.is_ascii_alphanumeric() || matches!(byte, b'-' | b'.' | b'_' | b'~' | b'/') {
+            uri.push(char::from(byte));
+        } else {
+            uri.push('%');
+            uri.push(char::from(HEX[usize::from(byte >> 4)]));
+            uri.push(char::from(HEX[usize::from(byte & 0x0F)]));
+        }
+    }
+    uri
 }
 
 impl OutputFormatter for SarifFormatter {
